@@ -56,9 +56,94 @@ pub mod verif_float {
     #[verifier::external_body]
     pub broadcast proof fn axiom_f_div_total(a: f64, b: f64) ensures #[trigger] a.div_req(b) {}
 
+    // ---- order facts (theorems of IEEE-754 round-to-nearest; each PROVED on the real f64 operators by the
+    //      Kani harness named next to it, over the full f64 domain unless a bound is stated) -------------
+    /// largest finite f64
+    pub open spec fn f_max() -> f64 { 1.7976931348623157e308f64 }
+    /// finite and non-negative (NaN and the infinities excluded)
+    pub open spec fn nn_fin(x: f64) -> bool { f_le(0.0f64, x) && f_le(x, f_max()) }
+    /// in [0, 1]
+    pub open spec fn is_unit(w: f64) -> bool { f_le(0.0f64, w) && f_le(w, 1.0f64) }
+
+    // Kani: float_order_laws (complete)
+    #[verifier::external_body]
+    pub proof fn axiom_f_order(a: f64, b: f64, c: f64)
+        ensures
+            f_le(a, b) && f_le(b, c) ==> f_le(a, c),
+            f_lt(a, b) && f_le(b, c) ==> f_lt(a, c),
+            f_le(a, b) && f_lt(b, c) ==> f_lt(a, c),
+            f_lt(a, b) ==> !f_le(b, a) && f_le(a, b),
+            f_le(a, b) ==> f_le(a, a) && f_le(b, b),
+    {}
+    // Kani: float_literal_facts (complete)
+    #[verifier::external_body]
+    pub proof fn axiom_f_literals()
+        ensures nn_fin(0.0f64), is_unit(0.0f64), is_unit(0.5f64), is_unit(1.0f64), f_lt(0.0f64, 0.5f64), f_lt(0.5f64, 1.0f64), f_le(1.0f64, f_max()),
+    {}
+    // Kani: float_add_monotone (complete)
+    #[verifier::external_body]
+    pub proof fn axiom_f_add_monotone(a: f64, b: f64, w: f64)
+        requires nn_fin(a), nn_fin(b), f_le(a, b), is_unit(w),
+        ensures f_le(f_add(a, w), f_add(b, w)), f_le(a, f_add(a, w)), nn_fin(f_add(a, w)),
+                f_lt(0.0f64, w) || f_lt(0.0f64, a) ==> f_lt(0.0f64, f_add(a, w)),
+    {}
+    // ASSUMED (theorem of correctly rounded IEEE division; the Kani harness c15_float_div_monotone exists but
+    // SAT on two 64-bit dividers did not finish here, so it is not run)
+    #[verifier::external_body]
+    pub proof fn axiom_f_div_monotone(a: f64, b: f64, t: f64)
+        requires nn_fin(a), nn_fin(b), f_le(a, b), nn_fin(t), f_lt(0.0f64, t),
+        ensures f_le(f_div(a, t), f_div(b, t)),
+    {}
+    // ASSUMED (x / x == 1 for finite non-zero x under correctly rounded division; harness c15_float_div_self not run, same reason)
+    #[verifier::external_body]
+    pub proof fn axiom_f_div_self(x: f64)
+        requires nn_fin(x), f_lt(0.0f64, x),
+        ensures f_le(1.0f64, f_div(x, x)),
+    {}
+    // Kani: float_of_nat_monotone (complete over u64)
+    #[verifier::external_body]
+    pub proof fn axiom_f_of_nat(a: nat, b: nat)
+        requires a <= b, b <= u64::MAX,
+        ensures f_le(f_of_nat(a), f_of_nat(b)), nn_fin(f_of_nat(a)), a > 0 ==> f_lt(0.0f64, f_of_nat(a)),
+    {}
+    // Kani: float_third_below_half (complete over c, n < 2^32)
+    #[verifier::external_body]
+    pub proof fn axiom_f_below_third_is_below_half(c: nat, n: nat)
+        requires 3 * c < n, n <= 0xffff_ffff,
+        ensures f_lt(f_div(f_of_nat(c), f_of_nat(n)), 0.5f64),
+    {}
+
+    // ---- f64 methods (std): is_nan, clamp, total_cmp -------------------------------------------------
+    pub open spec fn f_is_nan(x: f64) -> bool { !f_le(x, x) }
+    pub uninterp spec fn f_clamp(x: f64, lo: f64, hi: f64) -> f64;
+    /// IEEE-754 totalOrder as std::cmp::Ordering (f64::total_cmp)
+    pub uninterp spec fn f_total_cmp(a: f64, b: f64) -> std::cmp::Ordering;
+    pub assume_specification [f64::is_nan] (x: f64) -> (r: bool) ensures r == f_is_nan(x);
+    // std: clamp panics if !(lo <= hi) -- a PRECONDITION here
+    pub assume_specification [f64::clamp] (x: f64, lo: f64, hi: f64) -> (r: f64)
+        requires f_le(lo, hi),
+        ensures r == f_clamp(x, lo, hi);
+    pub assume_specification [f64::total_cmp] (a: &f64, b: &f64) -> (r: std::cmp::Ordering) ensures r == f_total_cmp(*a, *b);
+    // Kani: float_clamp_facts (complete)
+    #[verifier::external_body]
+    pub proof fn axiom_f_clamp(x: f64, lo: f64, hi: f64)
+        requires f_le(lo, hi),
+        ensures
+            f_is_nan(x) ==> f_is_nan(f_clamp(x, lo, hi)),
+            !f_is_nan(x) ==> f_le(lo, f_clamp(x, lo, hi)) && f_le(f_clamp(x, lo, hi), hi),
+            f_le(lo, x) && f_le(x, hi) ==> f_clamp(x, lo, hi) == x,
+            f_lt(x, lo) ==> f_clamp(x, lo, hi) == lo,
+            f_lt(hi, x) ==> f_clamp(x, lo, hi) == hi,
+    {}
+
     pub broadcast group group_float {
         axiom_f_lt, axiom_f_le, axiom_f_gt, axiom_f_ge, axiom_f_add, axiom_f_sub, axiom_f_mul, axiom_f_div, axiom_f_add_total, axiom_f_sub_total, axiom_f_mul_total, axiom_f_div_total,
     }
+
+    /// Identity on f64 (VERIFIED, body is `x`). The extraction wraps an f64 struct-field read that feeds
+    /// arithmetic in it: Verus' trigger matching for the operator preconditions does not fire on a bare
+    /// field projection (measured), and does on a call result.
+    pub fn verif_f64(x: f64) -> (r: f64) ensures r == x { x }
 
     /// `x as f64` for unsigned integers (the extraction renames the cast to this shim, whose body is the cast)
     pub trait VerifAsF64 { fn verif_as_f64(self) -> (r: f64); }
@@ -70,9 +155,28 @@ pub mod verif_float {
         #[verifier::external_body]
         fn verif_as_f64(self) -> (r: f64) ensures r == f_of_nat(self as nat) { self as f64 }
     }
+    impl VerifAsF64 for u32 {
+        #[verifier::external_body]
+        fn verif_as_f64(self) -> (r: f64) ensures r == f_of_nat(self as nat) { self as f64 }
+    }
+    impl VerifAsF64 for u128 {
+        #[verifier::external_body]
+        fn verif_as_f64(self) -> (r: f64) ensures r == f_of_nat(self as nat) { self as f64 }
+    }
     impl VerifAsF64 for i32 {
         #[verifier::external_body]
         fn verif_as_f64(self) -> (r: f64) ensures self >= 0 ==> r == f_of_nat(self as nat) { self as f64 }
     }
 }
 pub use verif_float::*;
+
+// Consistency canary for the order axioms: `false` must NOT follow from them (this function MUST fail).
+proof fn verif_canary_float_axioms(a: f64, b: f64, c: f64, n: nat, m: nat)
+    requires 3 * n < m, m <= 1000,
+{
+    axiom_f_literals(); axiom_f_order(a, b, c); axiom_f_order(0.0f64, 0.5f64, 1.0f64); axiom_f_order(0.5f64, 0.0f64, 1.0f64);
+    axiom_f_below_third_is_below_half(n, m); axiom_f_of_nat(n, m); axiom_f_of_nat(0, m);
+    if nn_fin(a) && nn_fin(b) && f_le(a, b) && is_unit(c) { axiom_f_add_monotone(a, b, c); }
+    if nn_fin(a) && nn_fin(b) && f_le(a, b) && nn_fin(c) && f_lt(0.0f64, c) { axiom_f_div_monotone(a, b, c); axiom_f_div_self(c); }
+    assert(false);
+}
